@@ -40,9 +40,10 @@ class Discharger:
         self.handoff_r = self._handoff_r()
 
     def sim(self, f):
-        if f.id not in self.ps:
-            self.ps[f.id] = pathsim.PathSim(f)
-        return self.ps[f.id]
+        k = (f.id, id(f))          # an inlined body shares its root's id: never mix their simulations
+        if k not in self.ps:
+            self.ps[k] = pathsim.PathSim(f)
+        return self.ps[k]
 
     # ---- supporting facts -------------------------------------------------------------------
     def _typestate(self):
@@ -676,10 +677,7 @@ def panic_census(ctx, RULE, reg=None, fns=None):
     for fid in sorted(fns):
         g = fns[fid]
         for bb, kind, desc, t in region.panic_sites(facts, g):
-            # a site inside a private helper is judged inside the function the helper serves (its guards may live there)
-            R, b = shared.lift_site(facts, g, bb)
-            sites.append((R, b, kind, desc, R.term(b)))
-            raw_of[(R.id, b)] = (g.id, bb)
+            sites.append((g, bb, kind, desc, t))
     visited, covered = shared.abstractly_visited(facts)
     ctx.floor("%s panic-capable sites in the region" % RULE, len(sites), 30)
     results = {}
@@ -690,7 +688,14 @@ def panic_census(ctx, RULE, reg=None, fns=None):
             deferred.append((g, bb, kind, desc, t))
             continue
         if r is None:
-            rid, rbb = raw_of.get((g.id, bb), (g.id, bb))
+            # a site inside a private helper is judged inside the function the helper serves (its guards may live there)
+            R, b = shared.lift_site(facts, g, bb)
+            if R is not g:
+                r = D.discharge(R, b, kind, R.term(b))
+                if r and r[0] == "DEFER-POISON":
+                    r = None
+        if r is None:
+            rid, rbb = g.id, bb
             if rid in covered and (rid, rbb) not in visited:
                 r = ("D-ABS-UNREACHABLE", "not reached on any abstract path of the public entry points of this module started from the states its typestate / hand-off rules establish (C06, C01, C09)")
         results[(g.id, bb)] = r
